@@ -6,11 +6,12 @@ ids="$@"; [ -z "$ids" ] && ids=$(ls seeded | grep '^C')
 for id in $ids; do
   [ -f seeded/$id/patch.diff ] || continue
   if [ -n "$(git -C /repo status --porcelain --untracked-files=no)" ]; then echo "/repo dirty"; exit 9; fi
-  git -C /repo apply seeded/$id/patch.diff || { echo "$id apply-failed" >> $OUT; continue; }
+  git -C /repo apply /verif/seeded/$id/patch.diff || { echo "$id apply-failed" >> $OUT; continue; }
   t0=$(date +%s)
-  ./vcheck $id > /tmp/matrix_$id.log 2>&1; rc=$?
+  prop=${id#r2_}
+  ./vcheck $prop > /tmp/matrix_$id.log 2>&1; rc=$?
   git -C /repo checkout -- .
   viol=$(grep -c '^VIOLATION' /tmp/matrix_$id.log)
-  units=$(grep -E "^\[$id\] .* violation " /tmp/matrix_$id.log | sed -E 's/.*violation +[0-9.]+s ([^ ]+) .*/\1/' | tr '\n' ' ')
+  units=$(grep -E "^\[$prop\] .* violation " /tmp/matrix_$id.log | sed -E 's/.*violation +[0-9.]+s ([^ ]+) .*/\1/' | tr '\n' ' ')
   echo "$id head=$(git -C /repo rev-parse --short HEAD) rc=$rc violations=$viol wall=$(( $(date +%s) - t0 ))s caught_by: $units" >> $OUT
 done
